@@ -727,9 +727,51 @@ def _atomic_splice_attrs(ctx, viol):
                      f"through, which have no `{n.attr}` attribute: AttributeError escapes from parse() instead of ParseError (e.g. `_Atomic(int(void)) x;`)")
 
 
-def _min_tuple_len(cls, mname, stack):
+def _not_none_here(node, fn, name):
+    """the node is reached only where `name` was tested not to be None: inside `if name is not None` / `if name`, in the else of `if name is None`,
+    or after an `if name is None:` that cannot fall through"""
+    def kind(t):
+        if isinstance(t, ast.Compare) and len(t.ops) == 1 and isinstance(t.left, ast.Name) and t.left.id == name and isinstance(t.comparators[0], ast.Constant) and t.comparators[0].value is None:
+            return "notnone" if isinstance(t.ops[0], ast.IsNot) else ("none" if isinstance(t.ops[0], ast.Is) else None)
+        if isinstance(t, ast.Name) and t.id == name:
+            return "notnone"
+        if isinstance(t, ast.UnaryOp) and isinstance(t.op, ast.Not) and isinstance(t.operand, ast.Name) and t.operand.id == name:
+            return "none"
+        if isinstance(t, ast.BoolOp) and isinstance(t.op, ast.And):
+            return "notnone" if any(kind(v) == "notnone" for v in t.values) else None
+        return None
+    cur = node
+    while cur is not None and cur is not fn:
+        par = getattr(cur, "_parent", None)
+        if isinstance(par, ast.If):
+            kd = kind(par.test)
+            if (kd == "notnone" and any(cur is x for x in par.body)) or (kd == "none" and any(cur is x for x in par.orelse)):
+                return True
+        for field in ("body", "orelse"):
+            blk = getattr(par, field, None)
+            if isinstance(blk, list) and any(x is cur for x in blk):
+                for sib in blk[:[i for i, x in enumerate(blk) if x is cur][0]]:
+                    if isinstance(sib, ast.If) and kind(sib.test) == "none" and not sib.orelse and sib.body and isinstance(sib.body[-1], (ast.Return, ast.Raise, ast.Continue, ast.Break)):
+                        return True
+        cur = par
+    return False
+
+
+def _min_tuple_len(cls, mname, stack, allow_none=False):
     """smallest length of the tuple that method `mname` returns, when every return is a tuple display or the result of a method that has
-    this property; None otherwise"""
+    this property; None otherwise.  With allow_none: (smallest length over the returns that are not the constant None, whether None can be returned)"""
+    if allow_none:
+        m0 = next((x for x in cls.body if isinstance(x, ast.FunctionDef) and x.name == mname), None)
+        if m0 is None:
+            return None
+        rets0 = [x for x in ast.walk(m0) if isinstance(x, ast.Return) and S.enclosing_function(x) is m0]
+        nones = [r for r in rets0 if r.value is None or (isinstance(r.value, ast.Constant) and r.value.value is None)]
+        others = [r for r in rets0 if r not in nones]
+        if not others or not isinstance(m0.body[-1], (ast.Return, ast.Raise)):
+            return None
+        if not all(isinstance(r.value, ast.Tuple) and not any(isinstance(y, ast.Starred) for y in r.value.elts) for r in others):
+            return None
+        return min(len(r.value.elts) for r in others), bool(nones)
     if mname in stack:
         return None
     m = next((x for x in cls.body if isinstance(x, ast.FunctionDef) and x.name == mname), None)
@@ -808,6 +850,23 @@ def _auto_guard(n, fn):
                 ln = _min_tuple_len(cls, n.value.func.attr, ())
                 if ln is not None and ln >= need:
                     return True
+    # x[k] where x = self.m(...) is bound once, every non-None return of m is a tuple display of more than k elements, and - when m can return
+    # None - the subscript is reached only where x was tested not to be None
+    if isinstance(n.value, ast.Name) and isinstance(n.slice, (ast.Constant, ast.UnaryOp)):
+        k = n.slice.value if isinstance(n.slice, ast.Constant) else (-n.slice.operand.value if isinstance(n.slice.op, ast.USub) and isinstance(n.slice.operand, ast.Constant) else None)
+        defs = [a for a in ast.walk(fn) if isinstance(a, (ast.Assign, ast.AnnAssign, ast.NamedExpr)) and any(isinstance(t, ast.Name) and t.id == n.value.id for t in (a.targets if isinstance(a, ast.Assign) else [a.target]))]
+        stores = sum(1 for x in ast.walk(fn) if isinstance(x, ast.Name) and x.id == n.value.id and isinstance(x.ctx, ast.Store))
+        if isinstance(k, int) and not isinstance(k, bool) and len(defs) == 1 and stores == 1:
+            v = defs[0].value
+            if isinstance(v, ast.Call) and isinstance(v.func, ast.Attribute) and isinstance(v.func.value, ast.Name) and v.func.value.id == "self":
+                cls = fn
+                while cls is not None and not isinstance(cls, ast.ClassDef):
+                    cls = getattr(cls, "_parent", None)
+                if cls is not None:
+                    ln = _min_tuple_len(cls, v.func.attr, (), allow_none=True)
+                    need = k + 1 if k >= 0 else -k
+                    if ln is not None and ln[0] >= need and (not ln[1] or _not_none_here(n, fn, n.value.id)):
+                        return True
     if isinstance(n.value, ast.Name) and n.value.id.startswith("_") and isinstance(n.slice, (ast.Attribute, ast.Name)):
         # TABLE[x] after `x not in TABLE: break` / `x in TABLE`
         tbl, idx = n.value.id, S.unparse(n.slice)
